@@ -125,7 +125,7 @@ def replay_ext(w):
         with contextlib.redirect_stdout(io.StringIO()), contextlib.redirect_stderr(io.StringIO()):
             p = parserh.project_concrete(_b_files(*w["slots"]), external={"a": d}, **PSET)
         got = _observe(p)
-    except (AttributeError, KeyError, TypeError, IndexError, ValueError) as ex:
+    except (AttributeError, KeyError, TypeError, IndexError, ValueError, RuntimeError) as ex:
         return True, {"b": _b_files(*w["slots"])["b.f90"], "ford aborted with": type(ex).__name__ + ": " + str(ex)[:200]}
     finally:
         shutil.rmtree(d, ignore_errors=True)
@@ -160,7 +160,7 @@ def local_first(ctx):
                 with contextlib.redirect_stdout(io.StringIO()), contextlib.redirect_stderr(io.StringIO()):
                     p = parserh.project(_b_files(mk[0], uk, ls[0]), external={"a": d}, **PSET)
                     got = _observe(p)
-            except (AttributeError, KeyError, TypeError, IndexError, ValueError) as ex:
+            except (AttributeError, KeyError, TypeError, IndexError, ValueError, RuntimeError) as ex:
                 E.reachable("correlated")
                 h.want = choice.apply(rule, mk[1], ls[1])
                 E.require(False, "B's run aborts on a use of A's entities: " + type(ex).__name__ + ": " + str(ex)[:80])
@@ -323,9 +323,9 @@ def _xexpected(d, text):
 def replay_xlink(w):
     d = _export_a()
     try:
-        with contextlib.redirect_stdout(io.StringIO()), contextlib.redirect_stderr(io.StringIO()):
-            p = parserh.project_concrete(_b_files("module kinds_of_b", "use kinds", "type unshared"), external={"a": d}, **PSET)
         try:
+            with contextlib.redirect_stdout(io.StringIO()), contextlib.redirect_stderr(io.StringIO()):
+                p = parserh.project_concrete(_b_files("module kinds_of_b", "use kinds", "type unshared"), external={"a": d}, **PSET)
             got = _xlink(p, w["link"])
         except Exception as e:  # noqa
             got = "raised " + repr(e)[:120]
@@ -348,8 +348,13 @@ def xlinks(ctx):
     ctx.bounds.update({"reference spellings": XLINKS})
     d = _export_a()
     try:
-        with contextlib.redirect_stdout(io.StringIO()), contextlib.redirect_stderr(io.StringIO()):
-            p = parserh.project_concrete(_b_files("module kinds_of_b", "use kinds", "type unshared"), external={"a": d}, **PSET)
+        try:
+            with contextlib.redirect_stdout(io.StringIO()), contextlib.redirect_stderr(io.StringIO()):
+                p = parserh.project_concrete(_b_files("module kinds_of_b", "use kinds", "type unshared"), external={"a": d}, **PSET)
+        except (AttributeError, KeyError, TypeError, IndexError, ValueError, RuntimeError) as ex:
+            # B cannot even be built against A's description: reported with the first reference as witness
+            ctx.report("B's run aborts on a use of A's entities: " + type(ex).__name__ + ": " + str(ex)[:80], {"link": XLINKS[0]}, replay_xlink)
+            return
         from fv import patch
 
         def h(E):
